@@ -9,8 +9,9 @@ from vp.results import Ext
 
 PROPERTY = "C20"
 RULE = ("Hypothesis-generated Deferred histories: a Deferred with 0..3 callbacks/errbacks attached (pass-through, "
-        "transforming, to-None, raising, recovering, or returning an unfired Deferred), fired with a value / a "
-        "failure / not fired, matched by has_no_result / succeeded(m) / failed(m) with inner matchers from the C06 "
+        "transforming, to-None, raising, recovering, or returning an unfired Deferred), fired with a value (incl. mock.ANY and an "
+        "exception instance used as a value) / a failure (caught live, cleaned with cleanFailure(), or built from an "
+        "instance) / not fired, matched by has_no_result / succeeded(m) / failed(m) with inner matchers from the C06 "
         "language, then (for the history generator) fired or given further callbacks after matching; oracle = a "
         "model of the callback chain plus the reference predicates. Second generator: test programs whose stages "
         "return already-fired Deferreds under SynchronousDeferredRunTest vs. the same program returning/raising "
